@@ -35,3 +35,6 @@ PY
   git -C /repo checkout -- .
   echo "$res" > $d/last_run.json
 done
+# restore the unmutated builds
+(cd /verif/harness && cargo build --offline >/dev/null 2>&1)
+(RUSTFLAGS="--cfg pna_verif" cargo build --offline --manifest-path /repo/Cargo.toml -p portable-network-archive --bin pna --target-dir /verif/build/repo-target >/dev/null 2>&1)
